@@ -37,7 +37,8 @@ meta("C01",
      budget={"quick": 22, "thorough": 300},
      min_counts={"quick": {"roundtrips": 2000, "rt:S": 1, "rt:L": 1, "rt:C": 1, "rt:P": 1, "rt:E": 1,
                            "rt:F": 1, "rt:G": 1, "rt:O": 1, "rt:U": 1, "rt:H": 1, "rt:#": 1,
-                           "rt:custom": 1, "line_roundtrips": 2000}},
+                           "rt:custom": 1, "line_roundtrips": 2000,
+                           "documents_with_both_complement_forms": 100}},
      set_samples=["rt_x_dt"])
 
 meta("C02",
@@ -110,9 +111,9 @@ meta("C20",
      set_samples=["kinds"])
 
 meta("C11",
-     rule="(1) exhaustive table: 4 orientation pairs x 7 x 7 interval kinds (empty prefix, prefix, whole, inner, empty inner, suffix, empty suffix) x both sid orders = 392 E lines, each as its own graph and all together; L/C/G lines and self-edges x 4 orientation pairs x {A->B, A->A, B->A} incl. parallel links; (2) random GFA1/GFA2 graphs with several edges per end; every traversal collection, derived answer (neighbours, containers, contained), edge predicate, from/to/other end and Gfa-level dovetails/containments is compared with the independent model of vlib/spec/edges.py; distinct = table cells (by construction) + distinct random graphs",
+     rule="(1) exhaustive table: 4 orientation pairs x 7 x 7 interval kinds (empty prefix, prefix, whole, inner, empty inner, suffix, empty suffix) x both sid orders = 392 E lines, each as its own graph and all together; L/C/G lines and self-edges x 4 orientation pairs x {A->B, A->A, B->A} incl. parallel links; (2) random GFA1/GFA2 graphs with several edges per end, re-checked after 1-4 random removals/renames mirrored on the text model; every traversal collection, derived answer (neighbours, containers, contained), edge predicate, from/to/other end and Gfa-level dovetails/containments is compared with the independent model of vlib/spec/edges.py; distinct = table cells (by construction) + distinct random graphs",
      budget={"quick": 20, "thorough": 240},
-     min_counts={"quick": {"table_cells": 392, "lcg_cells": 30, "collections_compared": 20000, "edge_predicates_compared": 2000}},
+     min_counts={"quick": {"table_cells": 392, "lcg_cells": 30, "collections_compared": 20000, "edge_predicates_compared": 2000, "checks_after_mutation": 2000}},
      exhaustive="table (1): 392 E-line cells + L/C/G/self-edge cells")
 meta("C16",
      rule="GFA1/GFA2 graphs with isolated segments, trees, cycles, self-links, hairpins, parallel edges, containment-only and internal-only relations (plus generic generated documents); connected_components, segment_connected_component (by name and by instance) and the four counters are compared with an independent union-find / text count; then again after 0-4 random removals mirrored on the text model; remove_small_components vs component lengths; non-trivial = >=2 components and a cycle/self-link/hairpin/parallel/containment/internal feature",
@@ -123,7 +124,7 @@ meta("C16",
 meta("C18",
      rule="(a) generated valid documents built at levels 0,1,2,3: written text (textually for canonical spelling, canonically for free spelling) and full observation must agree; (b) hostile documents and mutants built at all four levels: acceptance must be monotone (accepted at k => accepted at every lower level); (c) assignment scripts: 24 positional fields/tags x valid and invalid values x levels 0-3 x set()/attribute, followed by validate_field, validate, field_to_s, get, str: invalid reported at the assignment at level 3, at the latest on write at level 2, by explicit validation at every level; valid never rejected; non-trivial = document with delayed-parsing datatypes, acceptance differing between levels, or any assignment; distinct by (document | field, value, level, way)",
      budget={"quick": 25, "thorough": 360},
-     min_counts={"quick": {"level_builds": 4000, "monotonicity_builds": 4000, "assignments": 8000, "invalid_validated": 2000, "assign_cells": 150}})
+     min_counts={"quick": {"level_builds": 4000, "monotonicity_builds": 4000, "assignments": 4000, "invalid_validated": 1200, "assign_cells": 150}})
 
 meta("C14",
      rule="GFA1 (70%) and GFA2 graphs of 2-8 segments with M/=-only or '*' overlaps: backbone chains of 2-5 segments in every mix of orientations, rings, plus branches, self-links, hairpins on chain ends and inside, chains sharing junctions, with and without sequences; linear_paths() is compared with the independent chain finder (modulo reversal / ring rotation); after merge_linear_paths(): spelled sequence (orientation taken from the path gfapy reported), length, exact multiset of outward dovetails re-attached to the right ends, untouched segments, component partition, closed/symmetric object graph, idempotence; non-trivial = a chain of >=3 segments with mixed exit ends",
